@@ -73,19 +73,25 @@ MinLenFix(G, M) ==
   IN IF M2 = M THEN M ELSE MinLenFix(G, M2)
 MinLen(G) == MinLenFix(G, [s \in Symbols(G) |-> IF IsTerm(G, s) THEN 1 ELSE -1])
 
-\* Number of trees deriving w[i+1..j] from symbol X / from rhs(p)[d+1..].
-\* Terminates for non-cyclic grammars: a recursive call on the same (X,i,j)
-\* can only be reached through symbols whose siblings all derive epsilon.
+\* Number of trees deriving the lattice span (i, j) from symbol X / from rhs(p)[d+1..].
+\* The input is a TOKEN LATTICE: a set E of edges <<i, t, j>> ("terminal t matches
+\* from node i to node j", nodes are integers, i < j).  A plain token string is the
+\* linear lattice {<<k-1, w[k], k>>}; lexically ambiguous text gives a proper lattice
+\* (nodes = byte offsets after layout).  Terminates for non-cyclic grammars: a
+\* recursive call on the same (X,i,j) can only be reached through symbols whose
+\* siblings all derive epsilon.
+LinEdges(w) == {<<k - 1, w[k], k>> : k \in 1 .. Len(w)}
+
 RECURSIVE NT(_, _, _, _, _, _), NS(_, _, _, _, _, _, _)
-NT(G, M, w, X, i, j) ==
-  IF IsTerm(G, X) THEN (IF j = i + 1 /\ w[j] = X THEN 1 ELSE 0)
+NT(G, M, E, X, i, j) ==
+  IF IsTerm(G, X) THEN (IF <<i, X, j>> \in E THEN 1 ELSE 0)
   ELSE IF M[X] < 0 \/ M[X] > j - i THEN 0
   ELSE LET ps == ProdsOf(G, X)
            RECURSIVE Sum(_)
            Sum(S) == IF S = {} THEN 0
-                     ELSE LET p == CHOOSE x \in S : TRUE IN NS(G, M, w, p, 0, i, j) + Sum(S \ {p})
+                     ELSE LET p == CHOOSE x \in S : TRUE IN NS(G, M, E, p, 0, i, j) + Sum(S \ {p})
        IN Sum(ps)
-NS(G, M, w, p, d, i, j) ==
+NS(G, M, E, p, d, i, j) ==
   IF d = RhsLen(G, p) THEN (IF i = j THEN 1 ELSE 0)
   ELSE LET X == RhsAt(G, p, d)
            restMin == LET RECURSIVE Acc(_)
@@ -94,13 +100,15 @@ NS(G, M, w, p, d, i, j) ==
                       IN Acc(d + 2)
            RECURSIVE Sum(_)
            Sum(k) == IF k > j - restMin THEN 0
-                     ELSE LET r == NS(G, M, w, p, d + 1, k, j)
-                          IN (IF r = 0 THEN 0 ELSE NT(G, M, w, X, i, k) * r) + Sum(k + 1)
+                     ELSE LET r == NS(G, M, E, p, d + 1, k, j)
+                          IN (IF r = 0 THEN 0 ELSE NT(G, M, E, X, i, k) * r) + Sum(k + 1)
        IN IF M[X] < 0 THEN 0 ELSE Sum(i + M[X])
 
-NTrees(C, w) == LET M == MinLen(C.G) IN NT(C.G, M, w, C.G.start, 0, Len(w))
+NTrees(C, w) == LET M == MinLen(C.G) IN NT(C.G, M, LinEdges(w), C.G.start, 0, Len(w))
+\* lat = [start, end, edges]
+NTreesLat(C, lat) == LET M == MinLen(C.G) IN NT(C.G, M, lat.edges, C.G.start, lat.start, lat.end)
 
 EpsAmbiguous(C) ==
   LET M == MinLen(C.G)
-  IN \E X \in C.N : NT(C.G, M, <<>>, X, 0, 0) > 1
+  IN \E X \in C.N : NT(C.G, M, {}, X, 0, 0) > 1
 =============================================================================
